@@ -106,6 +106,17 @@ CHECKS = {
             "Trusted: vf/model_env.py (server array layout, shape numbers, -99), vf/scgf.py; "
             "generators restricted to each shape's documented domain.",
             "3/C19"),
+    'C18': ("dispatch reference model with an independent OSC 1.0 pattern matcher in lock step "
+            "with real responders (RT, _handle_request and real loop-back UDP); hostile-datagram "
+            "fuzzing with a sys.monitoring step counter deciding termination and a canary after "
+            "every datagram; ordered-registry models for the action registries",
+            "Runtime monitoring of seeded responder histories (also operations issued from inside "
+            "callbacks), pattern/address pairs, mutated and targeted malformed datagrams, and "
+            "registry histories; each invocation compared with the model (must / must-not / open).",
+            "Trusted: vf/model_dispatch.py, vf/osc.py strict decoder, CPython 3.12 sys.monitoring, "
+            "FIFO order of equal-time SystemClock tasks for the canary. Lenient parses outside the "
+            "strictly-malformed classes are counted, not judged.",
+            "3/C18"),
 }
 
 NOT_YET = "check not built yet in this session (work in progress); runtime monitoring is applicable"
